@@ -1126,7 +1126,7 @@ def run(ctx):
                 break
 
     # ---- fast (low-rank) assemblers: correspondence only -----------------------------------------
-    # finding gal:aca-skip-repeats: probe in a fresh process (the C rand() state is process history)
+    # fixed finding gal:aca-skip-repeats (repo commit d357d3f): probe in a fresh process (the C rand() state is process history)
     import subprocess
     from .common import PY
     probe = ("import numpy as np\nfrom pyiga import bspline, assemble, geometry\n"
